@@ -95,9 +95,10 @@ def _enc(w: _W, s: M.Schema, t: M.Type, v: Any, path: str) -> None:
     elif isinstance(t, M.EnumRef):
         w.push(v, s.enum(t.name).width(), "enum", path)
     elif isinstance(t, M.Str):
-        w.push(len(v), 32, "len_str", path)
-        for i, c in enumerate(v):
-            w.push(ord(c), 8, "char", f"{path}[{i}]")
+        payload = v.encode("utf-8")
+        w.push(len(payload), 32, "len_str", path)
+        for i, c in enumerate(payload):
+            w.push(c, 8, "char", f"{path}[{i}]")
     elif isinstance(t, M.StructRef):
         _enc_struct(w, s, s.struct(t.name), v, path)
     elif isinstance(t, M.Arr):
@@ -149,7 +150,7 @@ def _dec(r: _R, s: M.Schema, t: M.Type) -> Any:
         n = r.read(32)
         if r.pos + 8 * n > r.total:
             raise Truncated("string payload")
-        return "".join(chr(r.read(8)) for _ in range(n))
+        return bytes(r.read(8) for _ in range(n)).decode("utf-8")
     if isinstance(t, M.StructRef):
         return _dec_struct(r, s, s.struct(t.name))
     if isinstance(t, M.Arr):
